@@ -4,7 +4,7 @@ to concrete pigeon syntax.  See DESIGN.md 2.3 and Appendix B."""
 import json
 
 FIELDS = dict(k="", kids=[], s=[], rng=[], ucl=[], ic=False, inv=False, lab="", labs=[], blk=0,
-              rule=0, args=[], want=[], key="x", op="", arg=0, g=0, err=False)
+              rule=0, args=[], want=[], key="x", op="", arg=0, g=0, err=False, xl=False)
 
 
 class Gram:
@@ -134,6 +134,26 @@ class Gram:
                     walk(c, stack)
         for root in self.rules:
             walk(root, [[]])
+        # xl: evaluating the node binds a label into the scope it is evaluated in (used by R only to
+        # recognise the shape of known finding F2, never for a verdict)
+        def xl(e):
+            n = N(e)
+            k = n["k"]
+            if k == "label":
+                r = True
+                xl(n["kids"][0])
+            elif k in ("seq", "recover"):
+                r = any([xl(c) for c in n["kids"]])
+            elif k == "action":
+                r = xl(n["kids"][0])
+            else:
+                for c in n["kids"]:
+                    xl(c)
+                r = False
+            n["xl"] = r
+            return r
+        for root in self.rules:
+            xl(root)
 
     # ---- static analysis used only to choose safe run options -----------
     def nullable_rules(self):
@@ -209,7 +229,7 @@ class Gram:
         if k in ("star", "plus", "opt"):
             return par(self.render(n["kids"][0], 6) + {"star": "*", "plus": "+", "opt": "?"}[k])
         if k == "throw":
-            return "%{" + n["lab"] + "}"
+            return par("%{" + n["lab"] + "}")
         if k == "recover":
             return par(self.render(n["kids"][0], 0) + " //{" + ", ".join(n["labs"]) + "} " + self.render(n["kids"][1], 0))
         raise ValueError(k)
